@@ -542,11 +542,11 @@ func (z *ZodArray[T, R]) validate(value []any, chks []core.ZodCheck, ctx *core.P
 		if actual < fixed {
 			issue := issues.CreateTooSmallIssue(fixed, true, "array", value)
 			issue.Properties["is_rest_param"] = true
-			return nil, issues.CreateArrayValidationIssues([]core.ZodRawIssue{issue})
+			return nil, issues.CreateArrayValidationIssues([]core.ZodRawIssue{issue}, ctx)
 		}
 	} else if actual != fixed {
 		issue := issues.CreateFixedLengthArrayIssue(fixed, actual, value, actual < fixed)
-		return nil, issues.CreateArrayValidationIssues([]core.ZodRawIssue{issue})
+		return nil, issues.CreateArrayValidationIssues([]core.ZodRawIssue{issue}, ctx)
 	}
 
 	// Validate elements and collect errors.
@@ -567,7 +567,7 @@ func (z *ZodArray[T, R]) validate(value []any, chks []core.ZodCheck, ctx *core.P
 	}
 
 	if len(errs) > 0 {
-		return nil, issues.CreateArrayValidationIssues(errs)
+		return nil, issues.CreateArrayValidationIssues(errs, ctx)
 	}
 
 	return value, nil
